@@ -135,6 +135,17 @@ Definition with_date (y o : Z) (v : val) : val :=
   | _ => v
   end.
 
+(* the panicking twins of the constructors: the same reading, PANIC exactly where nothing is accepted *)
+Definition or_panic (v : val) : val := match v with VSome x => x | _ => VPanic end.
+Definition judge_pctor4 (scale : Z) (args : list val) (out : val) : verdict :=
+  match args with
+  | [a; b; c; d] =>
+      match u32 a, u32 b, u32 c, u32 d with
+      | Some h, Some m, Some s, Some x => judge_eq (or_panic (exp_ctor h m s (x * scale))) out
+      | _, _, _, _ => JSkip end
+  | _ => JSkip
+  end.
+
 Definition judge (op : bytes) (args : list val) (out : val) : verdict :=
   if op_is op "ndt.add" then judge_ndt 1 false args out
   else if op_is op "ndt.sub" then judge_ndt (-1) false args out
@@ -191,5 +202,20 @@ Definition judge (op : bytes) (args : list val) (out : val) : verdict :=
         | Some (s, f), Some v =>
             if (0 <=? which) && (which <=? 3) then judge_eq (with_date y o (exp_with which s f v)) out else JSkip
         | _, _ => JSkip end
+    | _ => JSkip end
+  else if op_is op "t.phms" then
+    match args with
+    | [a; b; c] => match u32 a, u32 b, u32 c with
+                   | Some h, Some m, Some s => judge_eq (or_panic (exp_ctor h m s 0)) out
+                   | _, _, _ => JSkip end
+    | _ => JSkip end
+  else if op_is op "t.phms_milli" then judge_pctor4 1000000 args out
+  else if op_is op "t.phms_micro" then judge_pctor4 1000 args out
+  else if op_is op "t.phms_nano" then judge_pctor4 1 args out
+  else if op_is op "t.pnsfm" then
+    match args with
+    | [a; b] => match u32 a, u32 b with
+                | Some s, Some n => judge_eq (if accept_secs_nano s n then enc_t s n else VPanic) out
+                | _, _ => JSkip end
     | _ => JSkip end
   else JSkip.
